@@ -35,6 +35,7 @@ type lifeScn struct {
 	Chan    int      `json:"chan,omitempty"` // 0 or 1
 	Watch   int      `json:"watch,omitempty"` // watchdog in ms (default 1500)
 	Burst   bool     `json:"burst,omitempty"` // the calls are started back to back, without letting each one settle
+	LogoutAnswer string `json:"logoutanswer,omitempty"` // what the peer answers the logout with: "" = DONE(final), ret / eed / ack = another package
 	SlowFirst int    `json:"slowfirst,omitempty"` // the transport takes this many ms for the first request packet it is given (a slow network write)
 	Ops     []lifeOp `json:"ops"`
 }
@@ -178,7 +179,16 @@ func runLife(tr *Tracer, cur *int64, scn *lifeScn) {
 					v := r.nextVal
 					r.mu.Unlock()
 					r.emit(Ev{"ev": "PeerSend", "n": 1})
-					r.mc.Feed(mkPacket(4, 1, ch, 0, encDone(tokDone, 0, 0, int32(v)).Bytes))
+					body := encDone(tokDone, 0, 0, int32(v)).Bytes
+					switch scn.LogoutAnswer {
+					case "ret":
+						body = encRetStat(int32(v)).Bytes
+					case "eed":
+						body = randEED(rand.New(rand.NewSource(int64(v))), false).Bytes
+					case "ack":
+						body = encLoginAck(5, [4]byte{5, 0, 0, 0}, "x", [4]byte{1, 0, 0, 0}).Bytes
+					}
+					r.mc.Feed(mkPacket(4, 1, ch, 0, body))
 				}
 				if scn.Late {
 					time.AfterFunc(300*time.Millisecond, send)
@@ -229,6 +239,11 @@ func runLife(tr *Tracer, cur *int64, scn *lifeScn) {
 					r.mc.Feed(mkPacket(4, 1, chid, 0, encDone(tokDone, 0, 0, int32(v)).Bytes))
 				}
 			}
+			settle()
+		case "proto":
+			// a header-only packet of the channel protocol (an acknowledgement nobody waits for)
+			r.emit(Ev{"ev": "Stray", "n": 1})
+			r.mc.Feed(mkPacket(11, 1, chid, 0, nil))
 			settle()
 		case "stray":
 			// packets for a channel that never existed: nobody consumes the connection errors they cause
@@ -376,6 +391,7 @@ func lifeMain(args []string) error {
 	directed := fs.Bool("directed", false, "directed scenarios (fill levels, cancel / close interleavings)")
 	count := fs.Int("count", 0, "random scenarios")
 	slow := fs.Bool("slow", false, "include the peer that never answers the logout (about 60 s)")
+	logoutOnly := fs.Bool("logoutonly", false, "of the directed scenarios only those in which the peer answers the logout with another package than DONE (C10)")
 	part := fs.Int("part", 0, "process index")
 	parts := fs.Int("parts", 1, "processes")
 	fs.Parse(args)
@@ -471,6 +487,23 @@ func lifeMain(args []string) error {
 			// transport and ends the reader
 			scns = append(scns, lifeScn{K: k, Answers: true, Ops: []lifeOp{{Op: "cancel", Ctx: "conn"}, {Op: "connclose"}, {Op: "next"}, {Op: "send"}}})
 			scns = append(scns, lifeScn{K: k, Answers: true, Chan: 1, Ops: []lifeOp{{Op: "peer", N: 1}, {Op: "cancel", Ctx: "conn"}, {Op: "connclose"}, {Op: "next"}}})
+			// the peer answers the logout with something else than a DONE: Close reports an error, nothing more
+			for _, la := range []string{"ret", "eed", "ack"} {
+				scns = append(scns, lifeScn{K: k, Answers: true, LogoutAnswer: la, Ops: []lifeOp{{Op: "close"}, {Op: "next"}}})
+				scns = append(scns, lifeScn{K: k, Answers: true, LogoutAnswer: la, Ops: []lifeOp{{Op: "peer", N: 1}, {Op: "next"}, {Op: "connclose"}}})
+			}
+			// the package queue is exactly full, a header-only protocol packet arrives, then Close
+			for fill := k - 1; fill <= k+1; fill++ {
+				if fill < 0 {
+					continue
+				}
+				scns = append(scns, lifeScn{K: k, Answers: true, Chan: 1, Ops: []lifeOp{{Op: "peer", N: fill}, {Op: "proto"}, {Op: "close"}, {Op: "next"}}})
+				if fill+2 <= k {
+					// (with the reader parked on channel 1's full queue the logout answer for channel 0 cannot be
+					// routed: Conn.Close then takes the library's one-minute logout timeout - bounded, not judged here)
+					scns = append(scns, lifeScn{K: k, Answers: true, Chan: 1, Ops: []lifeOp{{Op: "peer", N: fill}, {Op: "proto"}, {Op: "proto"}, {Op: "connclose"}}})
+				}
+			}
 			// Close while a send is still inside its transport write
 			scns = append(scns, lifeScn{K: k, Answers: true, Chan: 1, SlowFirst: 200, Ops: []lifeOp{{Op: "send"}, {Op: "close"}, {Op: "next"}}})
 			scns = append(scns, lifeScn{K: k, Answers: true, Chan: 0, SlowFirst: 200, Ops: []lifeOp{{Op: "send"}, {Op: "connclose"}}})
@@ -507,6 +540,15 @@ func lifeMain(args []string) error {
 			}
 		}
 		scns = append(scns, s)
+	}
+	if *logoutOnly {
+		var keep []lifeScn
+		for _, sc := range scns {
+			if sc.LogoutAnswer != "" {
+				keep = append(keep, sc)
+			}
+		}
+		scns = keep
 	}
 	for i := range scns {
 		if i%*parts != *part {
